@@ -1,8 +1,8 @@
 (* Proofs about Model/ConnFail.v (property C14, clause d: a connection failure of ANY kind ends
    the context of every handler running on that connection and every wait of the calls made
-   over it) and the tie to the source: Gen/GenCtxSites.stop_sites / notify_sites / watch_sites. *)
+   over it) and the tie to the source: Gen/GenCtxFlow.stop_sites / notify_sites / watch_sites. *)
 From Coq Require Import ZArith List Bool Lia ZifyBool.
-From Verif Require Import Base.Wrap Base.Wire Gen.GenCtxSites Spec.CtxSitesSpec Model.ConnFail.
+From Verif Require Import Base.Wrap Base.Wire Gen.GenCtxFlow Spec.CtxFlowSpec Model.ConnFail.
 Import ListNotations.
 Local Open Scope Z_scope.
 
@@ -34,19 +34,19 @@ Lemma stop_programs_generated :
   forallb (fun r => lz_eqb (row_fn r) fn_connection_error || lz_eqb (row_fn r) fn_protocol_error) stop_sites = true.
 Proof.
   first [ vm_compute; repeat split; reflexivity
-        | fail 1 "the stopExchanges statements regenerated from the source (Gen/GenCtxSites.stop_sites) are not the stop programs of Model/ConnFail.v: Connection.connectionError and Connection.protocolError must each stop the OUTBOUND and the INBOUND exchange set under the shared once-only guard c.stoppedExchanges.CAS(false, true), and nothing else may call stopExchanges" ].
+        | fail 1 "the stopExchanges statements regenerated from the source (Gen/GenCtxFlow.stop_sites) are not the stop programs of Model/ConnFail.v: Connection.connectionError and Connection.protocolError must each stop the OUTBOUND and the INBOUND exchange set under the shared once-only guard c.stoppedExchanges.CAS(false, true), and nothing else may call stopExchanges" ].
 Qed.
 
 Lemma notify_statements_generated : notify_sites = model_notify_sites.
 Proof.
   first [ vm_compute; reflexivity
-        | fail 1 "messageExchangeSet.stopExchanges (mex.go) changed: its calls / assignments / returns with their guards (Gen/GenCtxSites.notify_sites) differ from Spec/CtxSitesSpec.model_notify_sites (latch shutdown under the lock, return early when already shut down, notify every copied exchange once)" ].
+        | fail 1 "messageExchangeSet.stopExchanges (mex.go) changed: its calls / assignments / returns with their guards (Gen/GenCtxFlow.notify_sites) differ from Spec/CtxFlowSpec.model_notify_sites (latch shutdown under the lock, return early when already shut down, notify every copied exchange once)" ].
 Qed.
 
 Lemma watcher_statements_generated : watch_sites = model_watch_sites.
 Proof.
   first [ vm_compute; reflexivity
-        | fail 1 "the goroutine Connection.dispatchInbound starts for a dispatched call changed: the calls in its select clauses (Gen/GenCtxSites.watch_sites) differ from Spec/CtxSitesSpec.model_watch_sites (ctx.Done: inboundExpired; errCh: response.cancel() then inboundExpired)" ].
+        | fail 1 "the goroutine Connection.dispatchInbound starts for a dispatched call changed: the calls in its select clauses (Gen/GenCtxFlow.watch_sites) differ from Spec/CtxFlowSpec.model_watch_sites (ctx.Done: inboundExpired; errCh: response.cancel() then inboundExpired)" ].
 Qed.
 
 (* ------------------------------------------------------------------ invariants *)
